@@ -375,7 +375,8 @@ def gen_world(rnd, valid_only=None):
                 d = posixpath.dirname(importer)
                 bad = rnd.choice(["missing", "noncapy", "dircapy", "outside", "abs_outside", "mod",
                                   "outside_deep", "almost_capy", "elsewhere", "outside_sibling",
-                                  "outside_sibling", "near_capy", "near_capy", "trailing_sep"])
+                                  "outside_sibling", "near_capy", "near_capy", "trailing_sep",
+                                  "cross_kind", "cross_kind"])
                 if bad == "missing":
                     add_import(importer, "import", rnd.choice(["nope.capy", "a/nope.capy", "../nope.capy"]))
                 elif bad == "noncapy":
@@ -386,6 +387,22 @@ def gen_world(rnd, valid_only=None):
                         add_import(importer, "import", "main.cap")
                 elif bad == "near_capy" and near:
                     add_import(importer, "import", posixpath.relpath(rnd.choice(near), d))
+                elif bad == "cross_kind":
+                    # the argument of an earlier, *valid* directive of this file, handed to the
+                    # other directive: #mod("x.capy") after #import("x.capy"), #import("alpha")
+                    # after #mod("alpha") - each directive has to apply its own rules
+                    earlier = [i for i in files[importer]["imports"]
+                               if (i["kind"] == "mod" and i["arg"] in mods_good)
+                               or (i["kind"] == "import" and Model(spec).resolve(importer, i)[0])]
+                    if earlier:
+                        e = rnd.choice(earlier)
+                        add_import(importer, "import" if e["kind"] == "mod" else "mod", e["arg"])
+                    elif mods_good:
+                        m = rnd.choice(mods_good)
+                        add_import(importer, "mod", m)
+                        add_import(importer, "import", m)
+                    else:
+                        add_import(importer, "import", "nope.capy")
                 elif bad == "trailing_sep":
                     # an existing, importable file followed by a separator: the string does not
                     # end in `.capy`
